@@ -15,7 +15,8 @@ const TIME_UNITS: &[&str] = &[
 const WS: &[&str] = &["", " ", "  ", "\t", "\u{a0}", "\u{2003}", "\u{3000}", "\n", " \t "];
 const JUNK: &[&str] = &[
     "x", "k", "bb", "kbs", "kb1", "1", ".5kb", ",5", "e3", "_", "-", "+", "kb kb", "µb", "ｋｂ", "secs", "s", "m", "h",
-    "d", "w", "minutes5", "\u{200b}kb", "K", "kB\u{301}", "İb",
+    "d", "w", "minutes5", "\u{200b}kb", "K", "kB\u{301}", "İb", "\u{212a}b", "\u{212a}ib", "\u{17f}econd", "\u{17f}econds", "day\u{17f}",
+    "Ｋｂ", "㎅", "kb\u{0}", "k b", "se conds",
 ];
 
 fn random_case(rng: &mut Rng, w: &str) -> String {
